@@ -79,7 +79,13 @@ def uncontracted_mutators(ctx: Ctx, contracted: set[str]) -> None:
 
 
 def body(ctx: Ctx) -> None:
+    import logging
+
+    logging.disable(logging.WARNING)
+    from bounded import C03 as B
+
     r = verify_into(ctx, FILES)
+    B.run(ctx)
     cache_writers(ctx)
     sess = r["session"]
     uncontracted_mutators(ctx, {t for t, c in sess.contracts.items() if not c.trusted})
